@@ -31,7 +31,7 @@ def isInput : Def → Bool
     start-of-transaction values only, and the dependency structure does not depend on any cell value -/
 def isStatic : Def → Bool
   | .sink _ | .csink _ | .const _ | .never | .defer _ | .split .. => true
-  | .map .. | .mapto .. | .filter .. | .merge .. | .orelse .. => true
+  | .map .. | .mapto .. | .filter .. | .merge .. | .orelse .. | .when .. => true
   | .snapshot .. | .snapshot1 .. | .snapshotn .. | .gate .. => true
   | .hold .. | .updates _ | .once _ | .route .. | .sloop => true
   | _ => false
@@ -220,6 +220,9 @@ theorem fireOf_congr_operands (sp : Spec) (ev : Events) {look look' : Nat → Op
     · rfl
   | route src sel k =>
     rw [fireOf_route _ _ _ _ hd, fireOf_route _ _ _ _ hd, h src (by simp [operands, hd])]
+  | «when» a b =>
+    rw [fireOf_when _ _ _ _ hd, fireOf_when _ _ _ _ hd, h a (by simp [operands, hd]),
+      h b (by simp [operands, hd])]
 
 /-! ### a quiet equation does not fire when none of its operands fires -/
 
@@ -306,6 +309,8 @@ theorem fireOf_quiet_silent (sp : Spec) (ev : Events) {look : Nat → Option (Op
       exact h _ (by simp [operands, hd, ht])
     · rfl
   | route src sel k => rw [fireOf_route _ _ _ _ hd, h src (by simp [operands, hd])]; rfl
+  | «when» a b =>
+    rw [fireOf_when _ _ _ _ hd, h a (by simp [operands, hd]), h b (by simp [operands, hd])]; rfl
 
 theorem fireOf_static_silent (sp : Spec) (ev : Events) {look : Nat → Option (Option Int)} (i : Nat)
     (hs : Static sp) (hne : operands sp i ≠ [])
